@@ -271,7 +271,13 @@ func (g *G) bodyStmts(retInt bool, depth int) []*N {
 		if g.p.JumpW > 0 && g.t.Intn(10) < g.p.JumpW {
 			switch g.t.Pick(3, 2, 1) {
 			case 0:
-				out = append(out, &N{K: KDefer, A: g.anyExpr(depth, "defer/expr"), Guard: g.guard("defer/guard"), Bool: g.t.Chance(1, 6)})
+				d := &N{K: KDefer, A: g.anyExpr(depth, "defer/expr"), Guard: g.guard("defer/guard"), Bool: g.t.Chance(1, 6)}
+				out = append(out, d)
+				if g.t.Chance(1, 6) {
+					// the very same defer statement once more (same text): each reached defer is one
+					// registration, however alike two of them look
+					out = append(out, &N{K: KDefer, A: d.A, Guard: nil, Bool: d.Bool})
+				}
 			case 1:
 				gd := g.boolExpr(1, "return/guard")
 				out = append(out, &N{K: KReturn, A: g.retExpr(retInt, depth, "return/value"), Guard: gd})
@@ -953,7 +959,11 @@ func (g *G) listChain(depth int, role string) *N {
 	case 0:
 		nf := g.noFault
 		g.noFault = 0
-		f := g.funcLit(1, nil, false, g.t.Chance(1, 2), depth, []string{"x"})
+		var ckw []string
+		if g.t.Chance(1, 5) {
+			ckw = []string{"k"} // a keyword parameter whose default is evaluated with the literal
+		}
+		f := g.funcLit(1, ckw, false, g.t.Chance(1, 2), depth, []string{"x"})
 		g.noFault = nf
 		return &N{K: KLitC, A: recv, B: f, Chain: Chain{Main: '@', Add: add, Arg: chainArg}}
 	case 1:
@@ -1005,7 +1015,11 @@ func (g *G) reduceChain(depth int, role string) *N {
 	if g.noBrace == 0 && g.t.Chance(1, 2) {
 		nf := g.noFault
 		g.noFault = 0
-		f := g.funcLit(2, nil, false, true, depth, []string{"acc", "x"})
+		var ckw []string
+		if g.t.Chance(1, 5) {
+			ckw = []string{"k"}
+		}
+		f := g.funcLit(2, ckw, false, true, depth, []string{"acc", "x"})
 		g.noFault = nf
 		return &N{K: KLitC, A: recv, B: f, Chain: Chain{Main: '$', Add: add, Arg: init}}
 	}
